@@ -131,3 +131,39 @@ pub mod txb {
 		crate::ln::chan_utils::commit_tx_fee_sat(feerate_per_kw, num_htlcs, channel_type)
 	}
 }
+
+/// [`crate::ln::wire::read`] (crate-private) with the default custom-message reader
+/// ([`crate::ln::peer_handler::IgnoringMessageHandler`]: every non-standard type is `Unknown`).
+pub mod wire {
+	use crate::ln::msgs::DecodeError;
+	use crate::ln::peer_handler::IgnoringMessageHandler;
+	use crate::ln::wire::Type;
+	use crate::util::ser::Writeable;
+	use alloc::string::String;
+	use alloc::vec::Vec;
+
+	/// What `wire::read` returned for `bytes` (2-byte type, then the payload).
+	pub struct WireRead {
+		/// `Message::type_id()`
+		pub type_id: u16,
+		/// the `Message` variant name (`Unknown` for `Message::Unknown`)
+		pub variant: String,
+		/// `Message::is_even()` (the rule peer_handler applies to `Message::Unknown`)
+		pub is_even: bool,
+		/// `Message::encode()` (the payload without the type; empty for `Unknown`)
+		pub reencoded: Vec<u8>,
+	}
+
+	/// Runs `wire::read` on a byte slice.
+	pub fn read(mut bytes: &[u8]) -> Result<WireRead, (DecodeError, Option<u16>)> {
+		let msg = crate::ln::wire::read(&mut bytes, &IgnoringMessageHandler {})?;
+		let dbg = alloc::format!("{:?}", msg);
+		let variant: String = dbg.chars().take_while(|c| c.is_alphanumeric() || *c == '_').collect();
+		Ok(WireRead {
+			type_id: msg.type_id(),
+			variant,
+			is_even: msg.is_even(),
+			reencoded: msg.encode(),
+		})
+	}
+}
